@@ -601,7 +601,6 @@ func c13resetfields(p *Prog, r *Report) {
 	}
 }
 
-
 // C03.memotime: round(x) counts the witnesses of the parent round REGISTERED SO FAR (RoundInfo is
 // filled by DivideRounds) and is memoised. Evaluating it while inserting events — before the
 // consensus pass has registered the witnesses of earlier rounds — caches a value that depends on
@@ -625,7 +624,6 @@ func c03memotime(p *Prog, r *Report) {
 			"the memoised "+w+"() is evaluated while inserting an event: "+strings.Join(path, " -> ")+"; its value depends on the witnesses registered by the consensus passes run so far, so rounds, witnesses, fame, round-received and blocks depend on how insertions are batched between passes")
 	}
 }
-
 
 // firstRoundRule: InmemStore.Reset ranges over frame.PeerSets (a Go map): the peer sets of a
 // frame reach PeerSetCache.Set in arbitrary order. firstRounds[id] must therefore end up as the
